@@ -68,6 +68,27 @@ func attempt(c hx.Creds, m *Mutation) (o outcome) {
 			w.BMC.Users[c.User] = p
 			// a password that differs only in trailing zero padding is the same key
 			o.changed = string(ref.PadKey(p)) != string(ref.PadKey(c.Password))
+		case "pwprefix", "pwextend", "pwbyte":
+			// the BMC holds a password related to the caller's: a proper prefix
+			// (e.g. a 20-byte password cut to the 16-byte v1.5 field), an extension,
+			// or one byte replaced
+			var p []byte
+			switch m.Kind {
+			case "pwprefix":
+				p = append([]byte(nil), c.Password[:m.Off%(len(c.Password)+1)]...)
+			case "pwextend":
+				p = append(append([]byte(nil), c.Password...), m.Value)
+				if len(p) > 20 {
+					p = p[:20]
+				}
+			default:
+				p = append([]byte(nil), c.Password...)
+				if len(p) > 0 {
+					p[m.Off%len(p)] = m.Value
+				}
+			}
+			w.BMC.Users[c.User] = p
+			o.changed = string(ref.PadKey(p)) != string(ref.PadKey(c.Password))
 		case "kg":
 			if len(c.KG) == 0 {
 				w.BMC.KG = []byte("a key the console does not know")[:20]
@@ -181,9 +202,12 @@ func judge(c hx.Creds, m Mutation) string {
 	if o.session || o.err == nil {
 		return fmt.Sprintf("a session was returned (session=%v err=%v) although the transcript was altered", o.session, o.err)
 	}
-	needIncorrect := m.Kind == "password" || (m.Kind == "flip" && m.Step == "rakp2" && m.Off >= 40)
+	needIncorrect := m.Kind == "password" || m.Kind == "pwprefix" || m.Kind == "pwextend" || m.Kind == "pwbyte" || (m.Kind == "flip" && m.Step == "rakp2" && m.Off >= 40)
 	if needIncorrect && !errors.Is(o.err, bmc.ErrIncorrectPassword) {
 		return fmt.Sprintf("error is %q, want the incorrect-password error", o.err)
+	}
+	if m.Kind == "pwprefix" && len(c.Password) > 16 && m.Off == 16 {
+		ev.Label(fmt.Sprintf("auth%d:pwprefix16-of-%d", c.Suite.Auth, len(c.Password)))
 	}
 	ev.Label(fmt.Sprintf("auth%d:%s:%s", c.Suite.Auth, m.Kind, m.Step))
 	ev.NonTrivial(fmt.Sprintf("%d|%s", c.Suite.Auth, m))
@@ -256,11 +280,42 @@ func TestEnumerated(t *testing.T) {
 	ev.Label("enumeration-complete")
 }
 
+// TestRelatedPasswords: for caller passwords of every length 1..20 the BMC holds
+// every proper prefix, a one-byte extension, and every position replaced; no
+// session may result (the BMC must prove knowledge of the whole password).
+func TestRelatedPasswords(t *testing.T) {
+	seed := uint64(ev.Seed)*0x9E3779B97F4A7C15 + 99
+	for _, auth := range []uint8{ref.AuthSHA1, ref.AuthMD5, ref.AuthSHA256} {
+		for n := 1; n <= 20; n++ {
+			seed = seed*6364136223846793005 + 1442695040888963407
+			integ := []uint8{ref.IntegSHA1_96, ref.IntegMD5_128, ref.IntegSHA256128}[(seed>>20)%3]
+			c := hx.Creds{Suite: ref.Suite{Auth: auth, Integ: integ, Conf: ref.ConfAES}, Priv: uint8(seed>>8) % 6, Lookup: seed>>16&1 == 1, Seed: seed}
+			c.User = []string{"", "a", "admin", "sixteen-byte-usr"}[(seed>>24)%4]
+			c.Password = []byte(fmt.Sprintf("P%016x/%x", seed, ^seed))[:n]
+			if (seed>>32)&1 == 1 {
+				c.KG = []byte(fmt.Sprintf("%020x", seed))[:20]
+			}
+			var ms []Mutation
+			for k := 0; k < n; k++ {
+				ms = append(ms, Mutation{Kind: "pwprefix", Off: k}, Mutation{Kind: "pwbyte", Off: k, Value: byte(seed>>uint(k%32)) | 1}, Mutation{Kind: "pwbyte", Off: k, Value: c.Password[k] ^ 0x20})
+			}
+			ms = append(ms, Mutation{Kind: "pwextend", Value: 0x01}, Mutation{Kind: "pwextend", Value: 'x'})
+			for _, m := range ms {
+				if msg := judge(c, m); msg != "" {
+					ev.Violation("TestRelatedPasswords", map[string]any{"creds": c, "mutation": m}, msg)
+					t.Fatalf("creds %+v mutation %v: %s", c, m, msg)
+				}
+			}
+		}
+	}
+	ev.Label("related-passwords-complete")
+}
+
 func TestRandom(t *testing.T) {
 	ev.Check(t, "TestRandom", ev.PickN(1500, 600000), func(t *rapid.T) {
 		c := hx.GenCreds(hx.Suites9()).Draw(t, "creds")
 		pl := payloadLens(c.Suite.Auth)
-		m := Mutation{Kind: rapid.SampledFrom([]string{"password", "kg", "flip", "flip", "flip", "status", "statusShort", "tag", "cutPayload", "cutRaw"}).Draw(t, "kind")}
+		m := Mutation{Kind: rapid.SampledFrom([]string{"password", "kg", "pwprefix", "pwextend", "pwbyte", "flip", "flip", "flip", "status", "statusShort", "tag", "cutPayload", "cutRaw"}).Draw(t, "kind")}
 		m.Step = rapid.SampledFrom([]string{"open", "rakp2", "rakp4"}).Draw(t, "step")
 		switch m.Kind {
 		case "flip":
@@ -272,6 +327,8 @@ func TestRandom(t *testing.T) {
 			m.Off = rapid.IntRange(0, pl[m.Step]-1).Draw(t, "cut")
 		case "cutRaw":
 			m.Off = rapid.IntRange(0, 16+pl[m.Step]-1).Draw(t, "cut")
+		case "pwprefix", "pwextend", "pwbyte":
+			m.Off, m.Value = rapid.IntRange(0, 19).Draw(t, "off"), rapid.Byte().Draw(t, "value")
 		default:
 			m.Off, m.Bit = rapid.IntRange(0, 19).Draw(t, "off"), uint(rapid.IntRange(0, 7).Draw(t, "bit"))
 		}
@@ -288,5 +345,10 @@ func TestCoverage(t *testing.T) {
 			need = append(need, fmt.Sprintf("auth%d:%s", a, k))
 		}
 	}
-	ev.RequireLabels(t, 1, append(need, "enumeration-complete")...)
+	for _, a := range []int{1, 2, 3} {
+		for n := 17; n <= 20; n++ {
+			need = append(need, fmt.Sprintf("auth%d:pwprefix16-of-%d", a, n))
+		}
+	}
+	ev.RequireLabels(t, 1, append(need, "enumeration-complete", "related-passwords-complete")...)
 }
